@@ -54,6 +54,80 @@ def h_stop(with_event, double_stop):
     api.check(len(h.got) <= 1, "an event is dispatched at most once")
 
 
+class Caller(FileSystemEventHandler):
+    """a handler that makes one API call on its own observer from inside the callback"""
+
+    def __init__(self, world):
+        self.world = world
+        self.got = 0
+
+    def dispatch(self, event):
+        w = self.world
+        self.got += 1
+        if self.got == 1:
+            if w.action == "stop":
+                w.obs.stop()
+            elif w.action == "unschedule":
+                w.obs.unschedule(w.watch)
+            elif w.action == "unschedule_all":
+                w.obs.unschedule_all()
+            elif w.action == "schedule":
+                w.obs.schedule(Rec(), "/q")
+            w.returned = True
+
+
+class W:
+    def __init__(self):
+        self.obs = None
+        self.watch = None
+        self.action = None
+        self.returned = False
+
+
+def h_reentrant(action):
+    """schedule (emitter queues one event); start; the handler calls `action` on its own observer; stop; join"""
+    w = W()
+    w.action = action
+    w.obs = BaseObserver(OneEventEmitter)
+    h = Caller(w)
+    w.watch = w.obs.schedule(h, "/p")
+    emitters = list(w.obs.emitters)
+    w.obs.start()
+    w.obs.stop()
+    w.obs.join()
+    api.reach("stop and join returned")
+    api.check(not w.obs.is_alive(), "the observer thread has exited after stop()+join()")
+    for e in emitters:
+        api.check(not e.is_alive(), "every emitter thread has exited after stop()+join()")
+    for e in list(w.obs.emitters):
+        api.check(not e.is_alive(), "every emitter thread has exited after stop()+join()")
+    if h.got >= 1:
+        api.reach("the handler made its re-entrant call")
+        api.check(w.returned, "a re-entrant API call from a callback returns")
+
+
+def h_running(order):
+    """API calls on a running observer from the application thread, in the given order, then stop; join"""
+    obs = BaseObserver(OneEventEmitter)
+    h = Rec()
+    watch = obs.schedule(h, "/p")
+    emitters = list(obs.emitters)
+    obs.start()
+    for op in order:
+        if op == "unschedule":
+            obs.unschedule(watch)
+        elif op == "unschedule_all":
+            obs.unschedule_all()
+        elif op == "stop":
+            obs.stop()
+    obs.stop()
+    obs.join()
+    api.reach("stop and join returned")
+    api.check(not obs.is_alive(), "the observer thread has exited after stop()+join()")
+    for e in emitters:
+        api.check(not e.is_alive(), "every emitter thread has exited after stop()+join()")
+
+
 def setup(vm):
     vm.native_classes.add(ObservedWatch)
 
@@ -62,18 +136,27 @@ def check(rep):
     from ..driver import run_sessions
     mod = __name__
     quick = rep.tier == "quick"
-    specs = [dict(name="schedule; start; stop; join (idle emitter)", module=mod, harness="h_stop", args=(False, False), steps=34)]
+    specs = [dict(name="schedule; start; stop; join (idle emitter)", module=mod, harness="h_stop", args=(False, False), steps=34),
+             dict(name="schedule; start; stop; join (emitter queues one event)", module=mod, harness="h_stop",
+                  args=(True, False), steps=36)]
     if not quick:
         specs.append(dict(name="schedule; start; stop; stop; join (emitter queues one event)", module=mod, harness="h_stop",
-                          args=(True, True), steps=50))
+                          args=(True, True), steps=40))
+        specs.append(dict(name="schedule; start; handler calls stop() from its callback; stop; join", module=mod,
+                          harness="h_reentrant", args=("stop",), steps=40))
+        specs.append(dict(name="schedule; start; unschedule; stop; join (application thread)", module=mod,
+                          harness="h_running", args=(("unschedule",),), steps=40))
     for sp in specs:
         sp.update(setup="setup", encode=("watchdog", "queue"), racy=[("EventQueue", "_last_item")], jobs=5,
                   query_timeout_s=900 if quick else 3000, loop_bound=60)
     res = run_sessions(specs, workers=len(specs))
     rep.add_results(res)
     rep.bounds = {"programs": [sp["name"] for sp in specs], "steps_K": [sp["steps"] for sp in specs]}
-    rep.outside = ["re-entrant API calls from handler callbacks", "real inotify / polling emitters", "other call orders "
-                   "(unschedule, unschedule_all, schedule while running)", "stop() after the watched root disappeared"]
-    rep.stubs = ["threading models; scripted emitter class; stdlib queue.Queue interpreted"]
+    rep.outside = ["schedule() on a running observer (objects allocated at schedule-dependent steps do not merge; see "
+                   "DESIGN.md 0.3)", "the real inotify / polling emitters over the kernel model and stop() after the watched "
+                   "root disappeared", "other call orders and more than one watch", "livelock through timed waits (only "
+                   "deadlock - nobody enabled, no timed waiter - is an obligation)", "schedules longer than K steps"]
+    rep.stubs = ["threading models; scripted emitter classes (wait on the stop flag; optionally queue one event first); "
+                 "stdlib queue.Queue interpreted"]
     rep.assumptions = ["scheduling points: lock/mutex acquisitions, wait resumptions, joins, Event flag accesses, thread "
                        "liveness reads, every access to the event queue's _last_item"]
